@@ -58,7 +58,7 @@ PROFILES = {
     # weights / switches per check; see DESIGN.md section 4
     "C08": dict(nreq=(1, 2), mutation=(1, 3), variants=False, reps=2,
                 configs="all", boom=(1, 3), overlap=True, l2=(1, 2),
-                l2_reps=2),
+                l2_reps=2, nonfinite=(1, 10)),
     "C09": dict(nreq=(1, 1), mutation=(1, 1), force_mutation=True,
                 variants=False, reps=2, configs="all", boom=(1, 6)),
     "C04": dict(nreq=(2, 6), mutation=(1, 3), variants=False, reps=1,
@@ -104,7 +104,8 @@ class Request:
                  "ninstr", "mws", "tracer", "skew", "preparsed", "index",
                  "noloc", "line_shift", "base_text", "validators_ok",
                  "in_except",
-                 "gen", "document", "repeat_of", "exp_snapshot", "l2", "root")
+                 "gen", "document", "repeat_of", "exp_snapshot", "l2", "root",
+                 "unmodelled")
 
 
 def _gen_request(draws, spec, bundle, idx, profile, want_mut, tier="quick",
@@ -113,6 +114,7 @@ def _gen_request(draws, spec, bundle, idx, profile, want_mut, tier="quick",
     req = Request()
     req.index = idx
     req.document = None
+    req.unmodelled = None
     req.repeat_of = None
     if prev is not None and prev.variant == "normal" and \
             (profile.get("activities") or profile.get("corruption")
@@ -135,6 +137,7 @@ def _gen_request(draws, spec, bundle, idx, profile, want_mut, tier="quick",
             req.document = prev.document
         req.wseed = rs.below(1 << 30, "wseed")
         req.nonfinite = False
+        req.unmodelled = None
         req.line_shift = 0
         req.base_text = prev.base_text
         req.text = prev.base_text
@@ -164,7 +167,7 @@ def _gen_request(draws, spec, bundle, idx, profile, want_mut, tier="quick",
         # lexer / parser states per request: weighted up
         req.variant = ("syntax", "validation", "variables", "opname",
                        "truncate", "flip", "preparsed", "dirnull")[
-            rs.weighted((1, 1, 2, 1, 4, 3, 1, 1), "variant_kind")]
+            rs.weighted((1, 2, 2, 1, 4, 3, 1, 1), "variant_kind")]
     gen = OpGen(rs, spec, max_depth=2 + rs.below(2, "depth"),
                 budget=8 + 8 * rs.below(3, "budget"),
                 features={"prefer_vars": req.variant == "variables"})
@@ -172,9 +175,19 @@ def _gen_request(draws, spec, bundle, idx, profile, want_mut, tier="quick",
     req.gen = gen
     if req.variant == "validation":
         where = op.sel
-        how = rs.below(5, "invalid_how")
+        how = rs.below(6, "invalid_how")
+        if how == 5 and not op.fragments:
+            how = 1
         if how == 0:
             bad = _bad_field()
+        elif how == 5:
+            # a fragment definition lost on the way (its spreads stay): the
+            # generator names fragments F0, F1, ... in every request, so an
+            # EARLIER request of this process has usually defined that name
+            lost = sorted(op.fragments)[rs.below(len(op.fragments),
+                                                 "lost_fragment")]
+            del op.fragments[lost]
+            bad = None
         elif how == 4:
             # a fragment cycle that a depth-first search only meets AFTER a
             # fragment it has already visited: P -> S, Q, R; S -> Q; R -> P
@@ -196,7 +209,8 @@ def _gen_request(draws, spec, bundle, idx, profile, want_mut, tier="quick",
             if nm == "Main":
                 op.name = "Main"
             bad = Spread(nm)
-        where.insert(rs.below(len(where) + 1, "bad_at"), bad)
+        if bad is not None:
+            where.insert(rs.below(len(where) + 1, "bad_at"), bad)
         if rs.chance(1, 3, "invalid_and_opname"):
             # two stages could fail: validation comes first, and its outcome
             # (errors, no data key) is what must be reported
@@ -244,6 +258,15 @@ def _gen_request(draws, spec, bundle, idx, profile, want_mut, tier="quick",
                   for j in range(i + 1, min(len(text), i + 6))]
         if inside and rs.chance(1, 2, "flip_in_escape"):
             pos = inside[rs.below(len(inside), "flip_escape_at")]
+        elif '"' in text and rs.chance(1, 5, "flip_quote"):
+            # a quote lost or turned into a line break: the string literal runs
+            # into a line terminator (or into the rest of the document), and
+            # the error sits exactly ON a line terminator
+            quotes = [i for i, c in enumerate(text) if c == '"']
+            pos = quotes[rs.below(len(quotes), "flip_quote_at")]
+            ch = ("\n", "\r\n", "", "\r", "\n\n")[rs.below(5, "flip_quote_ch")]
+            text = text[:pos] + ch + text[pos + 1:]
+            pos = None
         elif rs.chance(1, 3, "flip_in_name"):
             # one character of a NAME replaced by another name character: the
             # text still parses, and names a field / type / argument /
@@ -341,6 +364,10 @@ def _finish_request(draws, spec, req, idx, profile, rs, tier):
         kinds = ["err", "null", "errx", "errs", "errpp"]
         boom_on = bool(profile.get("boom", (0, 1))[0]) and fs.chance(
             *profile["boom"], "boom_on")
+        if req.nonfinite:
+            # (two sources of failure in one request: which one wins is
+            # nobody's promise)
+            boom_on = False
         if boom_on:
             # an unexpected exception, of one of the classes library code
             # tends to catch for its own control flow
@@ -771,6 +798,9 @@ def run_case(draws, prop, tier="quick"):
                     "status": out.status,
                     "resolver_order": ["/".join(map(str, p)) for p in order],
                 })
+        for v in _check_agreement(req, idx):
+            if prop in v.props:
+                res.violations.append(v)
         if req.exp is not None:
             e = req.exp
             res.count("field_instances", len(e.resolved))
@@ -1136,6 +1166,13 @@ def _evaluate(res, prop, config, req, out, hooks):
             # scalar cannot represent as a developer error (RuntimeError, no
             # response exists); what must never happen is a *response* that
             # is not strict JSON.
+            if getattr(req, "unmodelled", None) is None:
+                req.unmodelled = {}
+            cls = ("raised:" + type(out.exc).__name__
+                   if out.status == "raised" else str(out.status))
+            prev_cls = req.unmodelled.setdefault(config, cls)
+            if prev_cls != cls:
+                req.unmodelled[config + "'"] = cls
             if out.status == "raised" and isinstance(out.exc, RuntimeError):
                 res.count("probe:nonfinite_float_refused")
             elif out.status == "ok":
@@ -1238,7 +1275,24 @@ def _evaluate(res, prop, config, req, out, hooks):
                                      mw_tags, preparsed=req.preparsed))
 
 
+def _check_agreement(req, idx):
+    """Requests whose answer the model does not predict (a leaf value its
+    scalar cannot represent): whatever the library does with them, it has to do
+    the same thing under every configuration (C08)."""
+    seen = getattr(req, "unmodelled", None)
+    if not seen or len(set(seen.values())) < 2:
+        return []
+    classes = sorted(set(seen.values()))
+    return [Violation(
+        ("C08",), "outcome_divergence", ("unrepresentable-leaf",) + tuple(
+            sorted({c.split(":")[0] for c in classes})),
+        "request %d holds a leaf value its scalar cannot represent; the "
+        "configurations disagree about the outcome: %r" % (idx, seen))]
+
+
 def _has_nonfinite(d):
+    if isinstance(d, int) and not isinstance(d, bool):
+        return abs(d) > 2 ** 31
     if isinstance(d, dict):
         return any(_has_nonfinite(v) for v in d.values())
     if isinstance(d, list):
